@@ -228,7 +228,7 @@ fn zdump_binding(r: &Report) {
         for line in text.lines() {
             // <path>  Sun Mar 10 06:59:59 2024 UT = Sun Mar 10 01:59:59 2024 EST isdst=0 gmtoff=-18000
             let toks: Vec<&str> = line.split_whitespace().collect();
-            if toks.len() < 15 || toks[6] != "UT" {
+            if toks.len() < 16 || toks[6] != "UT" {
                 continue;
             }
             let mon = ["Jan", "Feb", "Mar", "Apr", "May", "Jun", "Jul", "Aug", "Sep", "Oct", "Nov", "Dec"]
@@ -240,9 +240,9 @@ fn zdump_binding(r: &Report) {
                 continue;
             }
             let t = refmodel::cal::days_from_civil(year, mon as i64 + 1, day) * 86400 + hms[0] * 3600 + hms[1] * 60 + hms[2];
-            let abbr = toks[12];
-            let isdst = toks[13].trim_start_matches("isdst=") != "0";
-            let Ok(gmtoff) = toks[14].trim_start_matches("gmtoff=").parse::<i32>() else { continue };
+            let abbr = toks[13];
+            let isdst = toks[14].trim_start_matches("isdst=") != "0";
+            let Ok(gmtoff) = toks[15].trim_start_matches("gmtoff=").parse::<i32>() else { continue };
             let m = model.info_at(t);
             lines.fetch_add(1, Ordering::Relaxed);
             if m.utoff != gmtoff || m.dst != isdst || m.abbrev != abbr {
